@@ -3404,6 +3404,9 @@ func c10MgmtScenario(t *testing.T, o *vOut, g *c10Gen) {
 		behaviour(true)
 		cfg, _ := p.config()
 		c10CheckReadback(o, rp, cfg, p)
+		if !c10CheckSeenByEvaluation(t, o, rp, p, routes, object, op, what) {
+			return
+		}
 	}
 	o.stat("mgmt_scenarios", 1)
 }
@@ -3427,6 +3430,88 @@ func c10DiffWindow(a, b string) string {
 // (modulo the documented preserve flag), and re-creating the object under the same name with NEW
 // contents behaves like a first creation: accepted, listed and evaluated as the new contents say.
 // After every step the Lean model, given the descriptors, predicts the live policy.
+
+// a fresh RoutingPolicy configured up front from what the LISTINGS of rp show (policies, defined sets,
+// assignments). Statement names are made unique per policy (a statement shared by two policies is listed
+// under both; names do not influence evaluation). Slots whose default is NONE cannot be configured and
+// are reported in `skip`.
+func c10FreshFromListings(t *testing.T, rp *RoutingPolicy, p *c10Prog) (*RoutingPolicy, map[int]bool) {
+	cfg := &oc.RoutingPolicy{}
+	for _, typ := range []DefinedType{DEFINED_TYPE_PREFIX, DEFINED_TYPE_NEIGHBOR, DEFINED_TYPE_AS_PATH, DEFINED_TYPE_COMMUNITY, DEFINED_TYPE_EXT_COMMUNITY, DEFINED_TYPE_LARGE_COMMUNITY} {
+		ds, err := rp.GetDefinedSet(typ, "")
+		if err != nil {
+			continue
+		}
+		cfg.DefinedSets.PrefixSets = append(cfg.DefinedSets.PrefixSets, ds.PrefixSets...)
+		cfg.DefinedSets.NeighborSets = append(cfg.DefinedSets.NeighborSets, ds.NeighborSets...)
+		b, d := &cfg.DefinedSets.BgpDefinedSets, ds.BgpDefinedSets
+		b.AsPathSets = append(b.AsPathSets, d.AsPathSets...)
+		b.CommunitySets = append(b.CommunitySets, d.CommunitySets...)
+		b.ExtCommunitySets = append(b.ExtCommunitySets, d.ExtCommunitySets...)
+		b.LargeCommunitySets = append(b.LargeCommunitySets, d.LargeCommunitySets...)
+	}
+	for _, pd := range rp.GetPolicy("") {
+		c := oc.PolicyDefinition{Name: pd.Name}
+		for i, st := range pd.Statements {
+			st.Name = fmt.Sprintf("%s_%d_%s", pd.Name, i, st.Name)
+			c.Statements = append(c.Statements, st)
+		}
+		cfg.PolicyDefinitions = append(cfg.PolicyDefinitions, c)
+	}
+	ap := map[string]oc.ApplyPolicy{}
+	skip := map[int]bool{}
+	for _, a := range p.assigns {
+		rt, pols, _ := rp.GetPolicyAssignment(a.id, a.dir)
+		if rt == ROUTE_TYPE_NONE {
+			skip[a.slot] = true
+			continue
+		}
+		x := ap[a.id]
+		names := []string{}
+		for _, q := range pols {
+			names = append(names, q.Name)
+		}
+		d := oc.DEFAULT_POLICY_TYPE_ACCEPT_ROUTE
+		if rt == ROUTE_TYPE_REJECT {
+			d = oc.DEFAULT_POLICY_TYPE_REJECT_ROUTE
+		}
+		if a.dir == POLICY_DIRECTION_IMPORT {
+			x.Config.ImportPolicyList, x.Config.DefaultImportPolicy = names, d
+		} else {
+			x.Config.ExportPolicyList, x.Config.DefaultExportPolicy = names, d
+		}
+		ap[a.id] = x
+	}
+	fresh := NewRoutingPolicy(slog.New(slog.NewTextHandler(discardWriter{}, nil)))
+	if err := fresh.Reset(cfg, ap); err != nil {
+		t.Fatalf("C10: the listings of the live policy cannot be configured: %v", err)
+	}
+	return fresh, skip
+}
+
+// every management edit of an object that is in use must be seen by evaluation exactly as it is seen by
+// the listings: the verdicts through the live ASSIGNMENTS against those of a policy configured up front
+// from the listings
+func c10CheckSeenByEvaluation(t *testing.T, o *vOut, rp *RoutingPolicy, p *c10Prog, routes []*c10Route, object, op, what string) bool {
+	fresh, skip := c10FreshFromListings(t, rp, p)
+	o.stat("seen_by_evaluation_checks", 1)
+	for _, rt := range routes {
+		stored := rt.path()
+		for _, a := range p.assigns {
+			if skip[a.slot] {
+				continue
+			}
+			_, live := c10Apply(rp, a.id, a.dir, stored, nil)
+			_, up := c10Apply(fresh, a.id, a.dir, stored, nil)
+			if live != up {
+				o.fail("edit-of-object-in-use-not-seen-by-evaluation:"+object+":"+op, map[string]any{"request": what, "assignment": a.id + "/" + a.dir.String(),
+					"route": c10RouteLine(rt), "through_the_assignment": live, "configured_from_the_listings": up})
+				return false
+			}
+		}
+	}
+	return true
+}
 
 func c10RemovalScenario(t *testing.T, o *vOut, g *c10Gen) {
 	r := g.r
@@ -3490,6 +3575,8 @@ func c10RemovalScenario(t *testing.T, o *vOut, g *c10Gen) {
 			o.fail("removal-removed-too-much:"+object+":"+op, map[string]any{"request": what, "statements_missing": missing})
 			return false
 		}
+		// evaluation through the assignments as the listings say
+		seen := c10CheckSeenByEvaluation(t, o, rp, p, routes, object, op, what)
 		// policies, defined sets, assignments and their API listings
 		before := o.nFail
 		cfg, _ := p.config()
@@ -3497,7 +3584,7 @@ func c10RemovalScenario(t *testing.T, o *vOut, g *c10Gen) {
 		if o.nFail != before {
 			return false
 		}
-		// evaluation
+		// … and as the model says
 		c10Emit(o, p)
 		o.op("%s", c10OptsLine(x))
 		for _, rt := range routes {
@@ -3508,7 +3595,7 @@ func c10RemovalScenario(t *testing.T, o *vOut, g *c10Gen) {
 				o.ask(sv, "eval %d %d 0", a.slot, rt.id)
 			}
 		}
-		return true
+		return seen
 	}
 	refused := func(object, op, what string, err error) bool {
 		if err == nil {
@@ -3570,6 +3657,91 @@ func c10RemovalScenario(t *testing.T, o *vOut, g *c10Gen) {
 			a.pols = append(append([]*c10Pol{}, a.pols...), sh)
 		}
 		if !step("policy", "add-refer-existing", polName(sh)) {
+			return
+		}
+	}
+	// A2. a policy that is ASSIGNED is extended: AddPolicy naming an existing policy appends statements to it
+	for k, n := 0, r.pick(0, 1, 1, 2); k < n; k++ {
+		v := p.pols[r.intn(len(p.pols))]
+		assigned := false
+		for _, a := range p.assigns {
+			for _, q := range a.pols {
+				if q == v {
+					assigned = true
+				}
+			}
+		}
+		if !assigned {
+			// assign first, edit afterwards
+			a := p.assigns[r.intn(len(p.assigns))]
+			names := []*oc.PolicyDefinition{}
+			pos := r.intn(len(a.pols) + 1)
+			var list []*c10Pol
+			list = append(list, a.pols[:pos]...)
+			list = append(list, v)
+			list = append(list, a.pols[pos:]...)
+			for _, q := range list {
+				names = append(names, &oc.PolicyDefinition{Name: polName(q)})
+			}
+			if refused("assignment", "set", a.id, rp.SetPolicyAssignment(a.id, a.dir, names, ROUTE_TYPE_NONE)) {
+				return
+			}
+			a.pols = list
+		}
+		var add []*c10Stmt
+		var req *Policy
+		byRef := r.chance(35) && len(all) > 0
+		if byRef {
+			// statements that exist already (of another policy), referred to by name
+			for _, i := range r.perm(len(all)) {
+				st, dup := all[i], false
+				for _, y := range v.stmts {
+					if y == st {
+						dup = true
+					}
+				}
+				if !dup && orphanFree(st, p) {
+					add = append(add, st)
+					break
+				}
+			}
+			if len(add) == 0 {
+				continue
+			}
+			req = &Policy{Name: polName(v), Statements: []*Statement{{Name: stName(add[0])}}}
+		} else {
+			pd := oc.PolicyDefinition{Name: polName(v)}
+			for i, m := 0, 1+r.intn(2); i < m; i++ {
+				n0 := len(p.sets)
+				st := g.newStmt(p)
+				if r.chance(50) {
+					st.conds = nil // make sure it applies: the extension is visible on every route
+				}
+				add = append(add, st)
+				for _, ns := range p.sets[n0:] {
+					if err := rp.AddDefinedSet(c10MkDefinedSet(t, ns), true); err != nil {
+						t.Fatalf("C10 removal: %v", err)
+					}
+				}
+				pd.Statements = append(pd.Statements, c10StmtConfig(st))
+			}
+			np, err := NewPolicy(pd)
+			if err != nil {
+				t.Fatalf("C10 removal: %v", err)
+			}
+			req = np
+		}
+		what := fmt.Sprintf("AddPolicy(refer=%v) naming the existing, assigned %s with %d more statement(s)", byRef, polName(v), len(add))
+		if refused("policy", "append-to-assigned", what, rp.AddPolicy(req, byRef)) {
+			return
+		}
+		v.stmts = append(append([]*c10Stmt{}, v.stmts...), add...)
+		all = append(all, add...)
+		op := "append-to-assigned"
+		if byRef {
+			op += "-refer-existing"
+		}
+		if !step("policy", op, what) {
 			return
 		}
 	}
@@ -3730,4 +3902,16 @@ func c10RemovalScenario(t *testing.T, o *vOut, g *c10Gen) {
 		}
 	}
 	o.stat("removal_scenarios", 1)
+}
+
+// the statement still belongs to a policy of the program (it was not released by a removal)
+func orphanFree(st *c10Stmt, p *c10Prog) bool {
+	for _, pol := range p.pols {
+		for _, y := range pol.stmts {
+			if y == st {
+				return true
+			}
+		}
+	}
+	return false
 }
